@@ -121,7 +121,7 @@ func blocker(kind, pidfile string) string {
 		return fmt.Sprintf("sh -c 'trap \"\" INT; echo $$ >> %s; exec sleep 30'", pidfile)
 	case "ticker":
 		// ignores the interrupt and keeps reporting that it is alive (TICK tokens in the trace next to the pid file)
-		return fmt.Sprintf("sh -c 'trap \"\" INT; echo $$ >> %s; i=0; while [ $i -lt 100 ]; do printf \"TICK\\n\" >> %s; sleep 0.1; i=$((i+1)); done'", pidfile, strings.TrimSuffix(pidfile, "pids")+"trace")
+		return fmt.Sprintf("sh -c 'trap \"\" INT; echo $$ >> %s; i=0; while [ $i -lt 200 ]; do printf \"TICK\\n\" >> %s; sleep 0.1; i=$((i+1)); done'", pidfile, strings.TrimSuffix(pidfile, "pids")+"trace")
 	}
 	return fmt.Sprintf("sh -c 'echo $$ >> %s; exec sleep 30'", pidfile)
 }
